@@ -1363,7 +1363,49 @@ def r14(cx):
                     cx.bad(None, construct=f"{label}: {msg}", detail="default value of a reference is null, encoded as for an explicit None", anchor="array::Array._to_buffer", sub="default")
             else:
                 cx.ok(None, construct=label, detail="every slot holds the null encoding of its kind and reads back None", anchor="array::Array._to_buffer", sub="default")
-    cx.need(n >= 17, "R14 cases")
+    # ---- arrays of references built from a LIST of objects that live in the holder's buffer: every item aliases its
+    # object (nothing is constructed).  Referents that are sequences themselves (xobject arrays) of equal length are the
+    # case in which a generic list -> array conversion takes the items apart (PF30)
+    for label, mk in (("struct referents", "struct"), ("array referents of different lengths", "arr-ragged"), ("array referents of equal length", "arr-equal")):
+        n += 1
+        out = {}
+
+        def thunk3():
+            T, T2, X, R, U, other = setup()
+            RefC = I.global_lookup("ref", "Ref")
+            if mk == "struct":
+                item = R
+                t = [I.call(T, [], {"v": 1.5, "_buffer": W.buffer}), I.call(T, [], {"v": 2.5, "_buffer": W.buffer})]
+            else:
+                ArrF = lab.array("ArrNFloat64", (None,), (0,), sc)
+                item = I.call(RefC, [ArrF], {})
+                t = [I.call(ArrF, [[1.0, 2.0, 3.0]], {"_buffer": W.buffer}), I.call(ArrF, [[4.0, 5.0, 6.0] if mk == "arr-equal" else [4.0, 5.0]], {"_buffer": W.buffer})]
+            cls = lab.array("AR", (None,), (0,), item)
+            n0 = len([e for e in I.effects if e.kind == "alloc"])
+            h = I.call(cls, [list(t)], {"_buffer": W.buffer})
+            out["allocs"] = len([e for e in I.effects if e.kind == "alloc"]) - n0
+            out["pos"] = [pol(I.call(I.getattr(h, "_get_offset"), [k], {})) for k in range(2)]
+            out["tpos"] = [pol(x.attrs["_offset"]) for x in t]
+            out["mem"] = dict(I.mem)
+            return None
+
+        res = I.explore(thunk3, max_paths=8)
+        lab_ = f"array of Ref items built from a list of {label} of the same buffer"
+        if len(res) != 1 or res[0]["exc"] is not None:
+            e = res[0]["exc"]
+            raise AnalysisError(f"[R14] {lab_}: cannot be evaluated: {e.etype if e else 'fork'}: {e.msg if e else res[0]['conds']}")
+        probs = []
+        if out["allocs"] != 1:
+            probs.append(f"{out['allocs'] - 1} object(s) are constructed besides the array itself: the items refer to duplicates, not to the objects given")
+        for k in range(2):
+            w0 = word(out["mem"], out["pos"][k])
+            if w0 != out["tpos"][k] - out["pos"][k]:
+                probs.append(f"slot {k} holds {w0!r}, the object given lives at relative position {out['tpos'][k] - out['pos'][k]!r}")
+        if probs:
+            cx.bad(None, construct=lab_, detail="; ".join(probs[:2]), anchor="array::Array._to_buffer", sub="list")
+        else:
+            cx.ok(None, construct=lab_, detail="every item aliases the object given (stored word = its position - slot position), nothing is constructed", anchor="array::Array._to_buffer", sub="list")
+    cx.need(n >= 20, "R14 cases")
 
 
 # ------------------------------------------------------------------------------------------ L1b bulk path
